@@ -77,6 +77,10 @@ func getOneLineSourceFromPkgStack(
 func getOneLineSourceFromPrintedStack(st string) (file string, line int, fn string, ok bool) {
 	// We only need 3 lines: the function/file/line info will be on the first two lines.
 	// See parsePrintedStack() for details.
+	if strings.TrimSpace(st) == "" {
+		// An empty stack trace has no source location.
+		return "", 0, "", false
+	}
 	lines := strings.SplitN(strings.TrimSpace(st), "\n", 3)
 	if len(lines) > 0 {
 		_, file, line, fnName := parsePrintedStackEntry(lines, 0)
